@@ -919,7 +919,7 @@ spif_linked_list_reverse(spif_linked_list_t self)
         current = current->next;
         tmp->next = previous;
     }
-    self->head = tmp;
+    self->head = previous;
     return TRUE;
 }
 
